@@ -152,6 +152,10 @@ package authboss
 //@            (ctxsession(result.0) == st && emits MemWrite(?p, _, ?v) :: suffixof(".sessionState", p) && v == st)) &&
 //@        (each CS.ReadState(?rw, _) -> (?st, ?e) => (e == nil && st != nil && rw == a.Config.Storage.CookieState && rw != a.Config.Storage.SessionState) ==>
 //@            (ctxcookie(result.0) == st && emits MemWrite(?p, _, ?v) :: suffixof(".cookieState", p) && v == st)))
+//@   -- every configured store is read, whatever the other one returned
+//@   ensures both_stores_read: (result.1 == nil) ==>
+//@       ((a.Config.Storage.SessionState != nil ==> (emits CS.ReadState(?rw, _) :: rw == a.Config.Storage.SessionState)) &&
+//@        (a.Config.Storage.CookieState != nil ==> (emits CS.ReadState(?rw2, _) :: rw2 == a.Config.Storage.CookieState)))
 //@   ensures read_error_outcome: each CS.ReadState(_, _) -> (_, ?e) => e != nil ==> result.1 == e
 //@
 //@ func (*Authboss).LoadClientStateMiddleware#1
